@@ -46,18 +46,23 @@ func (a arrayBus) Out(uint8, uint8)        {}
 // im0QuirkMatches reports whether the acceptance Step that led from (pre, r.snap) to the current CPU
 // state and memory is exactly what the known finding im0-executes-at-pc predicts.
 func (r *c07Rig) im0QuirkMatches(pre z80.States, data []uint8) bool {
-	var c z80.CPU
-	c.States = pre
-	s := eng.FromCPU(&c)
-	mem := r.snap
-	acc, _ := ref.Accept(&s, arrayBus{&mem}, ref.Request{Data: data}, ref.Quirks{Im0ExecutesAtPC: true})
-	if !acc {
-		return false
+	for _, q := range []ref.Quirks{{Im0ExecutesAtPC: true}, {Im0ExecutesAtPC: true, Im0NoOverlay: true}} {
+		var c z80.CPU
+		c.States = pre
+		s := eng.FromCPU(&c)
+		mem := r.snap
+		acc, _ := ref.Accept(&s, arrayBus{&mem}, ref.Request{Data: data}, q)
+		if !acc {
+			return false
+		}
+		got := eng.FromCPU(&r.cpu)
+		got.R, s.R = 0, 0
+		got.Halt, s.Halt = false, false
+		if got == s && mem == r.m.m {
+			return true
+		}
 	}
-	got := eng.FromCPU(&r.cpu)
-	got.R, s.R = 0, 0
-	got.Halt, s.Halt = false, false
-	return got == s && mem == r.m.m
+	return false
 }
 
 type c07Ref struct {
